@@ -3,6 +3,7 @@ package solicit
 import (
 	"context"
 	"encoding/hex"
+	"errors"
 	"fmt"
 	"io"
 	"sync"
@@ -50,10 +51,12 @@ type c31Case struct {
 	Sequential bool `json:"sequential"`
 	// AcceptDuringClose: while the underlying stream is being closed by the solicitation another caller accepts
 	AcceptDuringClose bool `json:"accept_during_close"`
+	// CloseErr: the underlying stream's Close reports an error (reset by the peer, link gone)
+	CloseErr bool `json:"close_err,omitempty"`
 }
 
 func genC31(t *rapid.T) c31Case {
-	c := c31Case{InterleaveAccept: rapid.Bool().Draw(t, "ila"), Interleave: rapid.IntRange(0, 2).Draw(t, "il") == 0, Sequential: rapid.Bool().Draw(t, "seq"), AcceptDuringClose: rapid.IntRange(0, 2).Draw(t, "adc") == 0}
+	c := c31Case{CloseErr: rapid.IntRange(0, 3).Draw(t, "closeerr") == 0, InterleaveAccept: rapid.Bool().Draw(t, "ila"), Interleave: rapid.IntRange(0, 2).Draw(t, "il") == 0, Sequential: rapid.Bool().Draw(t, "seq"), AcceptDuringClose: rapid.IntRange(0, 2).Draw(t, "adc") == 0}
 	g := rapid.IntRange(1, 4).Draw(t, "g")
 	for i := 0; i < g; i++ {
 		c.Seqs = append(c.Seqs, rapid.StringMatching(`[aci]{1,4}`).Draw(t, "seq"))
@@ -66,6 +69,10 @@ var hookMu sync.Mutex
 func checkC31(c c31Case) (o vstat.Outcome) {
 	a, b := fakes.NewStreamPair()
 	defer b.Close()
+	if c.CloseErr {
+		a.CloseErr = errors.New("verif: stream reset by peer")
+		o.Classes = append(o.Classes, "underlying-close-reports-an-error")
+	}
 	ms := &fakes.MountedStream{Strm: a, Proto: "verif/p", Peer: gen.PeerID(1)}
 	sms := link_solicit.NewSolicitMountedStream(ms)
 	cl, ok := sms.(closer)
